@@ -219,6 +219,11 @@ class MapToMolecule(Processor):
             fragment_nodes = list(self.fragments[self.node_to_fragment[start_node]])
             self.added_fragment_nodes += fragment_nodes
 
+            # shift the resids of the block in case we don't start with 1
+            resid_offset = resid_dict[start_node] - min(nx.get_node_attributes(new_mol, "resid").values())
+            for node in new_mol.nodes:
+                new_mol.nodes[node]["resid"] += resid_offset
+
             # extract the nodes of this paticular residue and store a
             # dummy correspndance
             correspondence = {node:node for node in new_mol.nodes}
